@@ -249,3 +249,31 @@ func gasArithmetic(l *h.Log) []string {
 	}
 	return out
 }
+
+// gasBounds checks, on the fork's own stream, that gas is never created: inside a frame the gas before
+// consecutive instructions never increases (whatever a nested frame hands back was paid for by the calling
+// instruction, the 2300 stipend included), and no frame is entered with more gas than the calling instruction had.
+func gasBounds(l *h.Log) []string {
+	var out []string
+	roots, _ := buildFrames(l)
+	var walk func(f *frame)
+	walk = func(f *frame) {
+		for i := 0; i+1 < len(f.steps); i++ {
+			s, nx := f.steps[i], f.steps[i+1]
+			if nx.Gas > s.Gas {
+				out = append(out, fmt.Sprintf("frame at seq %d: gas rose from %d before pc=%d op=%#x (cost %d) to %d before the next instruction", f.enter.Seq, s.Gas, s.PC, s.Op, s.Cost, nx.Gas))
+				break
+			}
+		}
+		for _, c := range f.children {
+			if c.callerStep != nil && c.enter != nil && !c.selfd && c.enter.Gas > c.callerStep.Gas {
+				out = append(out, fmt.Sprintf("frame entered at seq %d with %d gas by an instruction (pc=%d op=%#x) that had only %d", c.enter.Seq, c.enter.Gas, c.callerStep.PC, c.callerStep.Op, c.callerStep.Gas))
+			}
+			walk(c)
+		}
+	}
+	for _, r := range roots {
+		walk(r)
+	}
+	return out
+}
